@@ -30,8 +30,13 @@ class Inconclusive(Exception):
     pass
 
 
+_BOOTED = []
+
+
 def bootstrap():
     """Make sure bacpypes comes from the working tree, not site-packages."""
+    if _BOOTED:
+        return _BOOTED[0]
     os.environ.setdefault(GUARD, "1")
     os.environ.setdefault("TZ", "UTC")
     try:
@@ -54,6 +59,7 @@ def bootstrap():
     root = logging.getLogger()
     if not root.handlers:
         root.addHandler(logging.NullHandler())
+    _BOOTED.append(bacpypes)
     return bacpypes
 
 
